@@ -142,13 +142,37 @@ class SDateTime:
         self.year, self.month, self.day, self.hour, self.minute, self.second, self.microsecond = vals
         self.tzinfo = tzinfo
 
+    def astimezone(self, tz=None):
+        """only the part that matters for totality is modelled: OverflowError when the shifted instant leaves year 1..9999;
+        otherwise an opaque aware datetime (using its fields is outside the model)"""
+        if self.tzinfo is None or tz is None or not isinstance(tz, STimezone):
+            raise EngineLimit("datetime.astimezone on a naive datetime / without a target zone")
+        delta = tz.offset_minutes - self.tzinfo.offset_minutes
+        mod = self.hour * 60 + self.minute + delta
+        first = (self.year == 1) & (self.month == 1) & (self.day == 1) if isinstance(self.year, SInt) or isinstance(self.month, SInt) or isinstance(self.day, SInt) else (self.year == 1 and self.month == 1 and self.day == 1)
+        last = (self.year == 9999) & (self.month == 12) & (self.day == 31) if isinstance(self.year, SInt) or isinstance(self.month, SInt) or isinstance(self.day, SInt) else (self.year == 9999 and self.month == 12 and self.day == 31)
+        if bool(first) and bool(mod < 0):
+            raise OverflowError("date value out of range")
+        if bool(last) and bool(mod >= 1440):
+            raise OverflowError("date value out of range")
+        return OpaqueDateTime()
+
     def __getattr__(self, name):
-        # anything else of the datetime API (astimezone, replace, timestamp, ...) is outside the model: inconclusive, never a pass
+        # anything else of the datetime API (replace, timestamp, ...) is outside the model: inconclusive, never a pass
         if name.startswith("__"):
             raise AttributeError(name)
         raise EngineLimit(f"datetime.{name} is not modelled")
 
 
+class OpaqueDateTime:
+    """result of a modelled conversion whose civil fields are not tracked"""
+    def __getattr__(self, name):
+        if name.startswith("__"):
+            raise AttributeError(name)
+        raise EngineLimit(f"field {name} of a converted datetime is not modelled")
+
+
+STimezone.utc = STimezone(STimedelta(0))
 fake_datetime_module = types.SimpleNamespace(datetime=SDateTime, timezone=STimezone, timedelta=STimedelta)
 
 
